@@ -92,10 +92,18 @@ CHECKS["C11"] = dict(
     technique="Coq proof (partial): on the supported fragment no assertion of the rewriter model can fail, for any fuel (Accept.v); legality of the model's output "
               "(every generated function literal returns on every path, no stray branch statement) evaluated on every generated program; acceptance check on the real compiler: "
               "generated supported programs must compile without compiler panic under six import styles and the output must build; behaviour compared too",
-    text="C11_no_assertion_failure_partial, C11_no_assertion_any_fuel_partial (Props_C11.v): push on a frozen/unchecked block, pop of an empty block, pushReturn with a non-return kind, "
+    text="C11_no_assertion_failure_partial, C11_no_assertion_any_fuel_partial, C11_branch_placement_partial (after pass3 no break/continue is left outside a native loop/switch) (Props_C11.v): push on a frozen/unchecked block, pop of an empty block, pushReturn with a non-return kind, "
          "returnNormalRequired on a wrong block kind, yield-in-init and post-not-return are unreachable on the fragment. That the output builds is checked, not proved: go build of the real "
          "output of every generated program (whole supported grammar plus a regression corpus of shapes that used to crash); untagged rejections are violations.",
     note=C_NOTE, design="§6 C11, §11")
+CHECKS["C12"] = dict(
+    category="proof",
+    technique="Coq proof (partial): a Yield in an if-init at any position that can execute makes the rewriter model reject the whole body, for any fuel (Reject.v); "
+              "construct injection on the real compiler: one unsupported construct at a random statement position (and negative controls inside nested plain closures); verdict rejected-or-equal",
+    text="C12_yield_in_if_init_rejected_partial, C12_rejected_any_fuel_partial (Props_C12.v): the error cannot be lost in a sub-block that is re-emitted as trivial nor behind the "
+         "continuation of an earlier statement. The other unsupported constructs are not expressible in the model: 13 constructs x random positions and 5 negative controls are injected "
+         "into generated programs and the real compiler's verdict and the behaviour of what it produces are compared.",
+    note=C_NOTE, design="§6 C12, §11")
 CHECKS["C02"] = dict(
     category="proof",
     technique="Coq proof (partial): corollaries of the compiler theorem for every consumer that stops after j values (same world at every stop point); "
